@@ -129,3 +129,59 @@ func VxC12VoteCounterQuorums() {
 	}
 	vx.Assert(vc.HasQuorumForAny(0, Prevote) == (voted >= 3), "quorum-for-any-iff-more-than-two-thirds-voted")
 }
+
+// C12-H10: the quorum and f+1 thresholds are those of the CURRENT height's validator set. The total voting
+// power changes from height to height (validators join and leave); after StartNewHeight - once or twice, i.e.
+// after commits - a set of votes is a quorum exactly when its power reaches ceil(2N/3) for the total power N OF
+// THAT HEIGHT (the threshold the property names; two such quorums share more than f = floor((N-1)/3): C12-H1). Validators have power 1; the number of
+// validators at heights 5, 6, 7 is symbolic (1..7 each); k validators of the current height's set send the
+// same prevote.
+type vxcGrowing struct{ n [3]uint64 }
+
+func (g vxcGrowing) size(h types.Height) uint64 {
+	if h < 5 {
+		return g.n[0]
+	}
+	if h > 7 {
+		return g.n[2]
+	}
+	return g.n[h-5]
+}
+func (g vxcGrowing) TotalVotingPower(h types.Height) types.VotingPower {
+	return types.VotingPower(g.size(h))
+}
+func (g vxcGrowing) ValidatorVotingPower(h types.Height, a *vxcA) types.VotingPower {
+	if (*a)[0] < g.size(h) {
+		return 1
+	}
+	return 0
+}
+func (g vxcGrowing) Proposer(_ types.Height, r types.Round) vxcA { return vxcA{uint64(r) % 7} }
+
+func VxC12ThresholdsFollowTheValidatorSetOfTheHeight() {
+	vx.Bound("validators of power 1; set sizes at heights 5,6,7 symbolic in 1..7; counter built at height 5 and advanced 0..2 heights; k = 0..7 validators of the current set prevote the same value in round 0")
+	var g vxcGrowing
+	for i := range g.n {
+		g.n[i] = vx.U64("validators")
+		vx.Assume(g.n[i] >= 1 && g.n[i] <= 7)
+	}
+	vc := New[vxcV, vxcH, vxcA](g, 5)
+	adv := vx.Choice("heights-advanced", 3)
+	for i := 0; i < adv; i++ {
+		vc.StartNewHeight()
+	}
+	h := types.Height(5 + adv)
+	n := g.size(h)
+	if adv > 0 && n != g.size(h-1) {
+		vx.Cover("validator-set-changed-since-the-previous-height")
+	}
+	id := vxcH{1}
+	k := uint64(vx.Choice("voters", 8))
+	vx.Assume(k <= n)
+	for s := uint64(0); s < k; s++ {
+		pv := &types.Prevote[vxcH, vxcA]{MessageHeader: types.MessageHeader[vxcA]{Height: h, Round: 0, Sender: vxcA{s}}, ID: &id}
+		vx.Assert(vc.AddPrevote(pv), "vote-of-a-validator-of-the-height-is-counted")
+	}
+	vx.Assert(vc.HasQuorumForVote(0, Prevote, &id) == (3*k >= 2*n), "quorum-is-two-thirds-of-the-power-of-the-current-height")
+	vx.Assert(vc.HasQuorumForAny(0, Prevote) == (3*k >= 2*n), "any-quorum-is-two-thirds-of-the-power-of-the-current-height")
+}
